@@ -54,6 +54,8 @@ def stage_names(case):
         names = [["0", "False", "None", " ", "0.0"][(k + i) % 5] for i in range(n)]
     elif fl == "odd":
         names = [["dummy2", "s\u00e9", "a b", "s0", "no-such", "{x}"][(k + i) % 6] for i in range(n)]
+    for a, b in case.get("share") or []:
+        names[b] = names[a]          # one stage object sits at both positions: one name
     return names
 
 
@@ -100,8 +102,12 @@ class C19(Check):
     TECHNIQUE = "Coq proof by induction over the stage list + vm_compute correspondence against Cascade.run"
     TRUSTED = ["modelled not verified: signals are integers, user callbacks are deterministic functions of the signal; "
                "float amplification compared exactly on dyadic factors (binary64 product exact on them)",
-               "on_stage_complete / on_cascade_complete callbacks are not supplied (None)"]
+               "on_stage_complete / on_cascade_complete observers are absent, benign recorders, or rewrite the record "
+               "they are handed (sequential entry); observers that raise are outside the check (the code treats them as a "
+               "processor failure of the stage)"]
     ASSUMPTIONS = ["amplification factors are finite, non-NaN doubles",
+                   "one stage object may sit at several positions of a pipeline (its callbacks are attributed to positions "
+                   "in visiting order)",
                    "stage names are strings (any: empty, repeated, falsy-looking); a result is attributed to a stage by "
                    "position (run) or by name (run_parallel, where repeated names make the attribution a multiset)"]
 
@@ -143,6 +149,15 @@ class C19(Check):
                         "warm": rng.choice(["same", "same", "equal-distinct", "gates-flipped", "other-input"]),
                         # stage names are the caller's: distinct, empty, repeated, falsy-looking
                         "names": rng.choice(["distinct"] * 5 + NAME_FLAVOURS)})
+            c = out[-1]
+            # the SAME stage object registered at two positions (same behaviour, same name at both)
+            if ns >= 2 and rng.random() < 0.15:
+                a, b = sorted(rng.sample(range(ns), 2))
+                c["stages"][b] = dict(c["stages"][a])
+                c["share"] = [[a, b]]
+            # an observer that rewrites the record it is handed (sequential entry only)
+            if c["hooks"] and c["entry"] == "run" and rng.random() < 0.5:
+                c["hooks"] = "mutate"
         return out
 
     def exhaustive_cases(self):
@@ -163,10 +178,38 @@ class C19(Check):
                                 "exc": len(out) % 9,
                                 "warm": ["same", "equal-distinct", "gates-flipped", "other-input"][(len(out) // 2) % 4],
                                 "names": (["distinct"] * 3 + NAME_FLAVOURS)[(len(out) // 5) % 10]})
+                    c = out[-1]
+                    if n >= 2 and len(out) % 4 == 0:
+                        # the same stage object at the first and the last position (the last takes the first's behaviour)
+                        c["stages"] = c["stages"][:-1] + [dict(c["stages"][0])]
+                        c["share"] = [[0, n - 1]]
+                    if len(out) % 3 == 0:
+                        c["hooks"] = "mutate"
+        # ONE stage object at two positions whose behaviour depends on the signal (it raises / is gated shut on one visit
+        # and goes through on the other), with a parity-flipping stage in between
+        flip = {"c": None, "p": ["aff", 1, 1], "h": None, "req": True, "f": 2.0}
+        for c in (None, ["mod", 2, 0, "GPass", "GReject"], ["mod", 2, 1, "GPass", "GRaise"]):
+            for r in (0, 1):
+                for h in (None, ["recover", 7], ["raise"]):
+                    for req in (False, True):
+                        for layout in ("a-flip-a", "a-a-flip", "flip-a-flip-a"):
+                            for x in (3, 4):
+                                for halt in (True, False):
+                                    sh = {"c": c, "p": ["raisemod", 2, r, 1, 2], "h": h, "req": req, "f": 2.0}
+                                    if layout == "a-flip-a":
+                                        stages, share = [sh, flip, dict(sh)], [[0, 2]]
+                                    elif layout == "a-a-flip":
+                                        stages, share = [sh, dict(sh), flip], [[0, 1]]
+                                    else:
+                                        stages, share = [flip, sh, dict(flip), dict(sh)], [[0, 2], [1, 3]]
+                                    out.append({"halt": halt, "max": 10.0, "stages": stages, "x": x, "share": share,
+                                                "mode": "sequential", "runs": 1 + (len(out) % 2), "build": "add",
+                                                "exc": len(out) % 9, "warm": "same", "names": "distinct",
+                                                "hooks": [False, True, "mutate"][len(out) % 3]})
         # the fork pattern: every pipeline of <= 2 (quick) / <= 3 (thorough) stages again through run_parallel
         par = []
         for c in out:
-            if len(c["stages"]) <= top and c["halt"]:
+            if len(c["stages"]) <= top and c["halt"] and not c.get("share"):
                 par.append({**c, "entry": "run_parallel"})
         return out + par
 
@@ -207,7 +250,13 @@ class C19(Check):
         hooked = {"stage": [], "cascade": []}
         kw = {}
         if case.get("hooks"):
-            kw = {"on_stage_complete": lambda r: hooked["stage"].append(r.stage_name),
+            def on_stage(r):
+                hooked["stage"].append(r.stage_name)
+                if case.get("hooks") == "mutate" and case.get("entry") != "run_parallel":
+                    # an audit observer that trims / redacts the record it was handed
+                    r.output_signal = -4242
+                    r.input_signal = -4343
+            kw = {"on_stage_complete": on_stage,
                   "on_cascade_complete": lambda r: hooked["cascade"].append(bool(r.success))}
         import contextlib
         import io
@@ -222,9 +271,33 @@ class C19(Check):
         names = stage_names(case)
         cls = name_classes(names)
         phase = {"warm": False}
+        share = {b: a for a, b in case.get("share") or []}
+        visits = {}                       # first position of a shared object -> visits so far in the current run
+        import threading as _th
+        vlock = _th.Lock()
         for i, s in enumerate(stages):
-            def mk(i, s):
+            if i in share:
+                built.append(built[share[i]])      # the same object again
+                continue
+
+            def mk(i0, s):
+                positions = [i0] + sorted(b for b, a in share.items() if a == i0)
+                first_kind = 0 if s["c"] else 1
+                tl = _th.local()
+
+                def where(kind):
+                    """the position this callback belongs to: a shared object is visited once per position, in order"""
+                    if len(positions) == 1:
+                        return i0
+                    if kind == first_kind:
+                        with vlock:
+                            v = visits.get(i0, 0)
+                            visits[i0] = v + 1
+                        tl.pos = positions[v] if v < len(positions) else -9
+                    return getattr(tl, "pos", -9)
+
                 def checkpoint(x):
+                    i = where(0)
                     log.append([i, 0, x])
                     g = ev_gate(s["c"], x)
                     if phase["warm"] and case.get("warm") in ("gates-flipped", "equal-distinct"):
@@ -236,6 +309,7 @@ class C19(Check):
                     return [True, 1, "yes", [0], 2.5][k % 5] if g == "GPass" else [False, None, 0, "", [], 0.0][k % 6]
 
                 def processor(x):
+                    i = where(1)
                     log.append([i, 1, x])
                     r = ev_proc(s["p"], x)
                     if r[0] == "raise":
@@ -245,11 +319,12 @@ class C19(Check):
                 def on_error(e):
                     # the handler is only ever meant to see the processor's exception
                     x = e.args[0] if isinstance(e, ProcError) else -777
+                    i = where(2)
                     log.append([i, 2, x])
                     if s["h"][0] == "raise":
                         raise _gate_exc(case.get("exc", 0) + i + 3)
                     return s["h"][1]
-                return C.CascadeStage(name=names[i], processor=processor, amplification=s["f"],
+                return C.CascadeStage(name=names[i0], processor=processor, amplification=s["f"],
                                       checkpoint=checkpoint if s["c"] else None,
                                       on_error=on_error if s["h"] else None, required=s["req"])
             built.append(mk(i, s))
@@ -296,6 +371,7 @@ class C19(Check):
             phase["warm"] = True
             x0 = {"same": case["x"], "gates-flipped": case["x"], "equal-distinct": float(case["x"]),
                   "other-input": case["x"] + 1}[warm]
+            visits.clear()
             r0 = entry(x0)
             if warm == "same":
                 earlier.append(self._summary(r0, sorted(log) if parallel else list(log), parallel))
@@ -307,6 +383,7 @@ class C19(Check):
         hooked["stage"].clear()
         hooked["cascade"].clear()
         phase["warm"] = False
+        visits.clear()
         res = entry(case["x"])
         if case.get("hooks"):
             done = sorted(r.stage_name for r in res.stage_results if r.status.value == "completed" and r.error is None)
